@@ -86,6 +86,16 @@ pub struct Chain {
   pub s2m_mng: ConnManager<S2mService>,
   pub m2s_mng: ConnManager<M2sService>,
   pub paths: Vec<String>,
+  pub s2m_accept: tokio::task::JoinHandle<()>,
+}
+
+impl Chain {
+  // the modulator process goes away: no more accepts, its live S2M connections end, the socket file disappears
+  pub async fn s2m_down(&mut self) {
+    self.s2m_accept.abort();
+    let _ = std::fs::remove_file(&self.paths[0]);
+    let _ = tokio::time::timeout(Duration::from_secs(5), self.s2m_mng.shutdown()).await;
+  }
 }
 
 impl Drop for Chain {
@@ -129,7 +139,7 @@ pub async fn build_chain(
   s2m_factory.bootstrap().await?; // starts the M2S client + payload reader when recv-private-payload is offered
   let s2m_mng: ConnManager<S2mService> = ConnManager::new(&s2m_cfg.server);
   let s2m_ln = UnixListener::bind(&s2m_path)?;
-  {
+  let s2m_accept = {
     let mng = s2m_mng.clone();
     let f = s2m_factory.clone();
     tokio::task::spawn_local(async move {
@@ -138,13 +148,13 @@ pub async fn build_chain(
         let (mng, f) = (mng.clone(), f.clone());
         tokio::task::spawn_local(async move { mng.run_connection(Stream::Unix(s.compat()), f).await });
       }
-    });
-  }
+    })
+  };
 
   // --- S2M client (the Modulator implementation the C2S server is given) ---
   let s2m_client = S2mClient::new(link_client_config(link, &s2m_path))?;
   let modulator: Arc<dyn Modulator> = Arc::new(s2m_client.clone());
-  Ok(Chain { modulator, s2m_client, s2m_mng, m2s_mng, paths: vec![s2m_path, m2s_path] })
+  Ok(Chain { modulator, s2m_client, s2m_mng, m2s_mng, paths: vec![s2m_path, m2s_path], s2m_accept })
 }
 
 // ------------------------------------------------------------------------------------------------
